@@ -11,7 +11,10 @@ use std::collections::HashMap;
 #[derive(Serialize, Deserialize)]
 pub struct RewriteData {
   pub fixed: String,
-  // maybe we should have fixed range
+  /// the range the fix replaces. It is not always the diagnostic's range:
+  /// the fixer can expand it and the matcher can match less than the node.
+  #[serde(default, skip_serializing_if = "Option::is_none")]
+  pub range: Option<Range>,
 }
 
 impl RewriteData {
@@ -24,9 +27,18 @@ impl RewriteData {
     rule: &RuleConfig<L>,
   ) -> Option<Self> {
     let fixer = rule.matcher.fixer.as_ref()?;
-    let edit = node_match.replace_by(fixer);
+    // the same edit as the CLI's
+    let edit = node_match.make_edit(&rule.matcher, fixer);
+    let source = node_match.root().get_text();
+    let range = Range {
+      start: byte_offset_to_position(source, edit.position),
+      end: byte_offset_to_position(source, edit.position + edit.deleted_length),
+    };
     let rewrite = String::from_utf8(edit.inserted_text).ok()?;
-    Some(Self { fixed: rewrite })
+    Some(Self {
+      fixed: rewrite,
+      range: Some(range),
+    })
   }
 }
 
@@ -36,7 +48,8 @@ pub fn diagnostic_to_code_action(
 ) -> Option<CodeAction> {
   let rewrite_data = RewriteData::from_value(diagnostic.data?)?;
   let mut changes = HashMap::new();
-  let text_edit = TextEdit::new(diagnostic.range, rewrite_data.fixed);
+  let range = rewrite_data.range.unwrap_or(diagnostic.range);
+  let text_edit = TextEdit::new(range, rewrite_data.fixed);
   changes.insert(text_doc.uri.clone(), vec![text_edit]);
 
   let edit = WorkspaceEdit::new(changes);
@@ -60,6 +73,14 @@ pub fn diagnostic_to_code_action(
 fn utf16_column(source: &str, byte_offset: usize) -> u32 {
   let line_start = source[..byte_offset].rfind('\n').map_or(0, |i| i + 1);
   source[line_start..byte_offset].encode_utf16().count() as u32
+}
+
+fn byte_offset_to_position(source: &str, byte_offset: usize) -> Position {
+  let line = source[..byte_offset].matches('\n').count() as u32;
+  Position {
+    line,
+    character: utf16_column(source, byte_offset),
+  }
 }
 
 fn convert_node_to_range<L: Language>(node_match: &Node<StrDoc<L>>) -> Range {
